@@ -621,4 +621,53 @@ def objEq : Obj → Obj → Bool
   | .arr r a, .arr r' b => r == r' && objEq a b
   | _, _ => false
 
+
+/-! ## what the round-trip theorem is about -/
+
+/-- what the reader gives back for a printed object: symbol names in the case they were printed
+    in (equal to the original under `objEq`) -/
+def recase (cs : Case) : Obj → Obj
+  | .sym name => .sym (caseName cs name)
+  | .cons a d => .cons (recase cs a) (recase cs d)
+  | .vec e => .vec (recase cs e)
+  | .arr r c => .arr r (recase cs c)
+  | o => o
+
+def isList : Obj → Bool
+  | .nil => true
+  | .cons _ d => isList d
+  | _ => false
+
+/-- readable data as the round-trip theorem takes it: ratios in lowest terms with a denominator of
+    at least 2; not the character with code 0; no symbol spelled `t` or `nil` (they denote the
+    constants); no symbol `.` as an element of a list (the reader's `closeList` takes it for the
+    dot of a dotted pair); vectors hold proper lists; arrays have rank ≥ 2 and non-empty contents. -/
+def WF : Obj → Prop
+  | .nil => True
+  | .t => True
+  | .int _ => True
+  | .ratio num den => 2 ≤ den ∧ Nat.gcd num.natAbs den = 1
+  | .str _ => True
+  | .chr c => c.toNat ≠ 0
+  | .sym name => name.map lowerC ≠ ['t'] ∧ name.map lowerC ≠ ['n', 'i', 'l']
+  | .cons a d => WF a ∧ a ≠ dotSym ∧ WF d
+  | .vec e => isList e = true ∧ WF e
+  | .arr r c => 2 ≤ r ∧ isList c = true ∧ c ≠ .nil ∧ WF c
+
+/-- the settings documented to keep output readable: base 2..36 marked by `*print-radix*` (or the
+    reader's base 10), `*print-readably*` and `*print-array*` on; any `*print-case*` -/
+structure CfgOK (cfg : PCfg) : Prop where
+  base_lo : 2 ≤ cfg.base
+  base_hi : cfg.base ≤ 36
+  dom : cfg.radix = true ∨ cfg.base = 10
+  readably : cfg.readably = true
+  array : cfg.array = true
+
+/-- number of constructors (the reader's fuel is measured against it) -/
+def osize : Obj → Nat
+  | .cons a d => 1 + osize a + osize d
+  | .vec e => 1 + osize e
+  | .arr _ c => 1 + osize c
+  | _ => 1
+
 end SlipVerif.Printer
